@@ -5,7 +5,7 @@ import vf
 SPEC = dict(
     level="proof",
     harness=dict(pkg_dir="gitindex", run="TestVerifC13$", files=["gitindex/zz_verif_c13_test.go"],
-                 n_quick=int(os.environ.get("VERIF_C13_N", "20")), n_thorough=int(os.environ.get("VERIF_C13_N", "400"))),
+                 n_quick=int(os.environ.get("VERIF_C13_N", "20")), n_thorough=int(os.environ.get("VERIF_C13_N", "200"))),
     runner=dict(imports=["From ZV Require Import Lib.Base Model.Delta."], case_type="c13case",
                 mismatch_fn="c13_mismatches", shard=100),
     rule="generated histories over 1-3 branches (+ HEAD indexed as an alias of main in 25%): a REAL bare git repository "
